@@ -276,8 +276,13 @@ class XMLResource(XMLResourceLoader):
 
     def is_defused(self) -> bool:
         """Returns `True` if the XML data is defused before parsing."""
-        return self._defuse == 'remote' and is_remote_url(self.base_url) \
-            or self._defuse == 'nonlocal' and not is_local_url(self.base_url) \
+        base_url = self.base_url
+        if base_url is None and self.fp is not None:
+            # A response object of a remote resource knows the URL where it comes from
+            base_url = getattr(self.fp, 'url', None)
+
+        return self._defuse == 'remote' and is_remote_url(base_url) \
+            or self._defuse == 'nonlocal' and not is_local_url(base_url) \
             or self._defuse == 'always'
 
     def get_url(self, location: Union[str, bytes, Path]) -> str:
